@@ -47,7 +47,7 @@ func genStructure(repo, out string) {
 	var rows []stmtRow
 	type mapUse struct {
 		fn, field, where string
-		held           bool
+		held             bool
 	}
 	var muses []mapUse
 	type goRow struct{ fn, what, where string }
@@ -132,7 +132,7 @@ func genStructure(repo, out string) {
 	// matching deferred unlock
 	type lockRow struct {
 		fn, mutex, where string
-		deferred        bool
+		deferred         bool
 	}
 	var locks []lockRow
 	for _, dir := range []string{"hotline", filepath.Join("internal", "mobius")} {
